@@ -670,8 +670,25 @@ namespace DyntplV
 theorem runDeferred_pre (pl : List Event) (c : Ctx) : (c.pre pl).runDeferred = (c.runDeferred).pre pl := by
   simp [Ctx.runDeferred, Ctx.pre, List.append_assoc]
 
+theorem St.topStart_pre (s : St) (pl : List Event) (po : Bytes) (k : Nat) : (s.pre pl po k).topStart = s.topStart.pre pl po k := rfl
+
 theorem write_frame_top (reg : Registry) (fuel : Nat) (nodes : List Node) : FrameOK (write reg fuel nodes) := by
-  unfold write
+  have hb : FrameOK (writeBody reg fuel nodes) := by
+    unfold writeBody
+    apply FrameOK.andThen ((interp_frame reg fuel).1 nodes)
+    intro s h
+    refine ⟨h, fun pl po k => ?_⟩
+    show ok { (s.pre pl po k) with c := (s.c.pre pl).runDeferred } = _
+    rw [runDeferred_pre]; rfl
+  intro s h
+  obtain ⟨b1, b2⟩ := hb s.topStart h
+  refine ⟨b1, fun pl po k => ?_⟩
+  show writeBody reg fuel nodes (s.pre pl po k).topStart = _
+  rw [St.topStart_pre]
+  exact b2 pl po k
+
+theorem write_frame_top_old (reg : Registry) (fuel : Nat) (nodes : List Node) : FrameOK (writeBody reg fuel nodes) := by
+  unfold writeBody
   apply FrameOK.andThen ((interp_frame reg fuel).1 nodes)
   intro s h
   refine ⟨h, fun pl po k => ?_⟩
